@@ -444,6 +444,51 @@ def aqua_short_arc(chk, prog):
         chk.error("SHORT-ARC: class AQUA has %d slerp_I calls with a named delta quaternion, at least 2 confirmed by hand" % total)
 
 
+def aqua_gain_input(chk, prog):
+    """GAIN-INPUT (must-facts, continued into private helpers): AQUA's adaptive gain measures how far the *magnitude* of the accelerometer sample is from
+    gravity.  The vector handed to adaptive_gain must therefore be the raw sample: a value that carries the must-fact UNIT (already divided by its own
+    norm) has magnitude 1 whatever was measured, the magnitude error is the constant |1 - g|/g, and the gain collapses to 0 -- the tilt is never corrected."""
+    cls = prog.cls(F + "aqua.py::AQUA")
+    n = 0
+    work = [(m, None, None, 0) for m in cls.methods.values() if m.name in ("updateIMU", "updateMARG", "estimate")]
+    seen = set()
+    while work:
+        f, seed, facts_in, depth = work.pop()
+        key = (f.ref, tuple(sorted((seed or {}).items())), facts_in)
+        if key in seen:
+            continue
+        seen.add(key)
+
+        def on_call(fa, node, st, f=f, depth=depth):
+            nonlocal n
+            name = ast.unparse(node.func).split(".")[-1]
+            if name == "adaptive_gain" and node.args:
+                n += 1
+                arg = node.args[0]
+                site = "%s::adaptive_gain(%s)" % (f.ref, ast.unparse(arg)[:40])
+                if fa.is_unit(arg, st):
+                    why = "adaptive_gain(%s) receives a vector already normalised to unit length: its magnitude is 1 for every sample, so the magnitude error the gain is derived from is " \
+                          "constant and the adaptive gain is always 0 (no tilt correction with adaptive=True)" % ast.unparse(arg)[:40]
+                    chk.record("GAIN-INPUT", site, "adaptive_gain receives the raw accelerometer sample", verdict="VIOLATION", detail=why)
+                    chk.finding("GAIN-INPUT", f.module.rel, f.qname, "adaptive_gain(%s)" % ast.unparse(arg)[:40], why, line=node.lineno)
+                else:
+                    chk.record("GAIN-INPUT", site, "the argument is not a normalised value (%s)" % fa.vn(arg, st)[:40])
+            if depth < 2 and isinstance(node.func, ast.Attribute) and isinstance(node.func.value, ast.Name) and node.func.value.id == fa.self_name:
+                g = cls.methods.get(node.func.attr)
+                if g is not None and g is not fa.func and g.name not in ("updateIMU", "updateMARG", "estimate", "Omega"):
+                    params = g.params[1:]
+                    sd = {p: "P:%s.%s" % (g.name, p) for p in params}
+                    extra = set()
+                    for p, a in list(zip(params, node.args)) + [(k.arg, k.value) for k in node.keywords if k.arg in sd]:
+                        sd[p] = fa.vn(a, st)
+                        if fa.is_unit(a, st):
+                            extra.add(("UNIT", sd[p]))       # facts of argument expressions travel with their value numbers
+                    work.append((g, sd, st["F"] | frozenset(extra), depth + 1))
+        Facts(f, prog, callbacks={"call": on_call}, seed=seed, seed_facts=facts_in).analyse()
+    if n < 2:
+        chk.error("GAIN-INPUT: %d adaptive_gain call sites reached in AQUA, 2 confirmed by hand" % n)
+
+
 def canaries(chk, prog):
     from sa.report import Check
 
@@ -497,5 +542,6 @@ def run(chk, prog, tier):
     chk.require_count("EQUILIBRIUM", 8)
     chk.require_count("FEEDBACK.jacobian", 3)
     aqua_short_arc(chk, prog)
+    aqua_gain_input(chk, prog)
     canaries(chk, prog)
     return __doc__
